@@ -9,12 +9,13 @@ from symex.core import SBV, all_, and_, implies, mkbool, not_, or_
 from symex.harness import Case, Twin
 
 PROPERTY = "C10"
-FUNCTIONS = ["spikeglx.split_sync", "ibldsp.utils.fronts", "ibldsp.utils.rises", "ibldsp.utils.falls"]
+FUNCTIONS = ["spikeglx.split_sync", "spikeglx.Reader.read_sync / read_sync_digital / read_sync_analog", "ibldsp.utils.fronts", "ibldsp.utils.rises", "ibldsp.utils.falls"]
 ASSUMPTIONS = [
     "split_sync: words are free 16-bit bit-vectors (all 65536 values of every word at once); np.int16/.view(np.uint8)/np.unpackbits/np.int8 are modelled bit-exactly (little-endian host), roll/flip/reshape are the real NumPy",
+    "read_sync: a 3-sample nidq recording on the fake file system with 1-2 analog lines (free int16 words, real-sorted with integer witnesses) and one free 16-bit digital word per sample; threshold 1.2 V",
     "fronts/rises/falls: integer samples as z3 Ints (no int16 wrap-around in np.diff: |x| < 2^14 assumed), step a positive integer",
 ]
-OUTSIDE = ["Reader.read_sync through a file (see C01/C11 for the reader itself)", "vectors longer than the stated length bound"]
+OUTSIDE = ["vectors longer than the stated length bound", "read_sync on more than 3 samples / 2 analog lines"]
 EXPLANATION = "split_sync runs on symbolic bit-vector words; fronts on symbolic integer vectors (np.where forks over the feasible edge patterns)."
 LEVEL_TEXT = ("'line k = bit k' is decided for every 16-bit word simultaneously (bit-vector query), and the edge set returned by "
               "fronts/rises/falls is compared with the definition {i: |x[i]-x[i-1]| >= step} for every integer vector up to the length bound "
@@ -34,8 +35,9 @@ def setup():
     rng = np.random.default_rng(int(__import__("os").environ.get("VERIF_SEED", "0") or 0))
     w = rng.integers(-32768, 32767, size=5).astype(np.int16)
     real = spikeglx.split_sync(w.copy())
-    arrays.patch_module(spikeglx)
-    arrays.patch_module(u)
+    from symex import sglx
+    from checks import c01
+    sglx.patch(mtscomp=c01._Mts)            # spikeglx + ibldsp.utils on the facades and the fake file system (as in C01)
     got = spikeglx.split_sync(arrays.wrap(w.copy()))
     if not np.array_equal(np.asarray(got, dtype=np.int64), real.astype(np.int64)):
         raise core.Unsupported("facade disagrees with real NumPy on concrete words")
@@ -54,6 +56,12 @@ def case_split_sync(ctx, m):
             v = e.to_int() if isinstance(e, SBV) else e
             bit = core.SInt(z3.BV2Int(z3.Extract(k, k, words[i].t), is_signed=False))
             ctx.oblige("line_k_is_bit_k", core.eq(v, bit), detail={"i": i, "k": k})
+
+
+def case_read_sync_file(ctx, xa):
+    """Reader.read_sync on a nidq file: 16 digital lines then the analog lines, floor (10th percentile PER LINE) removed and thresholded"""
+    from checks import c01
+    c01.case_read_sync(ctx, xa)
 
 
 def _edges_oracle(ctx, x, n, step, name, got_idx, got_sign=None, polarity=None):
@@ -143,11 +151,19 @@ def cases(tier):
     for (r, c) in b["fronts_2d"]:
         for ax in (0, 1, -1):
             cs.append(Case(f"fronts_2d_{r}x{c}_axis{ax}", "case_fronts_2d", {"rows": r, "cols": c, "axis": ax}))
+    for xa in (1, 2):
+        cs.append(Case(f"read_sync_file_xa{xa}", "case_read_sync_file", {"xa": xa}))
     return cs
+
+
+def _replay_read_sync(case, params, cex):
+    from checks import c01
+    return c01.replay("read_sync_xa%d" % params["xa"], params, cex)
 
 
 def twins(tier):
     return [
+        Twin("floor_over_all_lines", "spikeglx", "analog -= np.percentile(analog, 10, axis=0)", "analog -= np.percentile(analog, 10)", ["read_sync_file_xa2"]),
         Twin("no_roll", "spikeglx", "np.flip(np.roll(out, 8, axis=1), axis=1)", "np.flip(out, axis=1)", ["split_sync"]),
         Twin("no_flip", "spikeglx", "np.flip(np.roll(out, 8, axis=1), axis=1)", "np.roll(out, 8, axis=1)", ["split_sync"]),
         Twin("fronts_no_shift", "ibldsp.utils", "    sign = d[tuple(ind)]\n    ind[axis] += 1", "    sign = d[tuple(ind)]\n    ind[axis] += 0", ["fronts_1d_int", "fronts_1d_ttl"]),
@@ -160,6 +176,8 @@ def twins(tier):
 
 def replay(case, params, cex):
     m = cex["model"]
+    if case.startswith("read_sync_file"):
+        return _replay_read_sync(case, params, cex)
     if case == "split_sync":
         words = [m[f"w{i}"] for i in range(params["m"])]
         return f"""
